@@ -11,7 +11,14 @@ VERIF = os.path.dirname(HERE)
 sys.path.insert(0, HERE)
 from mutations import MUTATIONS  # noqa: E402
 
-REPO = "/repo"
+# By default the mutations are applied to /repo itself.  With SELFTEST_SCRATCH=<dir> they are applied to a scratch git worktree of
+# /repo at <dir> (created here, removed at the end) and the checks are pointed at it, so /repo stays untouched and usable meanwhile.
+SCRATCH = os.environ.get("SELFTEST_SCRATCH")
+REPO = SCRATCH or "/repo"
+if SCRATCH:
+    os.environ["NVS_REPO"] = SCRATCH
+    os.environ["NVS_TARGET"] = SCRATCH.rstrip("/") + "-nvs-target"
+    os.environ["NVS_EVIDENCE"] = SCRATCH.rstrip("/") + "-evidence"
 REL_FILTER = "            if let Some(rel) = self.rel\n                && edge.rel != rel\n            {\n                continue;\n            }\n\n"
 
 
@@ -36,6 +43,9 @@ def apply(edits):
 
 def main():
     sel = sys.argv[1:]
+    if SCRATCH and not os.path.isdir(SCRATCH):
+        r0 = sh("git -C /repo worktree add --detach %s HEAD" % SCRATCH)
+        assert r0.returncode == 0, r0.stdout
     assert sh("git -C %s status --porcelain --untracked-files=no" % REPO).stdout.strip() == "", "/repo working tree must be clean"
     results = []
     for name, pid, expect, edits in MUTATIONS:
@@ -43,7 +53,7 @@ def main():
             continue
         try:
             apply(edits)
-            chk = sh("cargo check --offline -q -p nervusdb-storage -p nervusdb-query -p nervusdb-capi 2>&1 | grep -c '^error' || true", cwd=REPO)
+            chk = None  # type errors surface as a FATAL from the extractor ("does not type-check")
             r = sh("./nvs.sh check %s" % pid, cwd=VERIF)
             viol = [l for l in r.stdout.splitlines() if l.startswith("VIOLATION")]
             hit = expect in r.stdout and bool(viol) and "does not type-check" not in r.stdout
@@ -85,6 +95,9 @@ def main():
             print("%-40s %s  STALE-SEED %s" % (name, pid, e), flush=True)
         finally:
             sh("git -C %s checkout -- ." % REPO)
+    if SCRATCH:
+        sh("git -C /repo worktree remove --force %s" % SCRATCH)
+        sh("rm -rf %s %s" % (os.environ["NVS_TARGET"], os.environ["NVS_EVIDENCE"]))
     bad = [r for r in results if r[2] != "CAUGHT"]
     print("selftest: %d mutations, %d caught, %d not" % (len(results), len(results) - len(bad), len(bad)))
     return 1 if bad else 0
